@@ -261,7 +261,8 @@ def hexify_layout(prog, rep):
         raise cdb.AnalysisBroken("anchor missing: hexify")
     pin, pout, plen = [("v", p["name"], p["id"]) for p in f.params[:3]]
     O0, N0 = Lin.var(("$entry", "out")), Lin.var(("$entry", "len"))
-    A = poly.Analysis(f, assume=[("==", Lin.var(pout), O0), ("==", Lin.var(plen), N0), (">=", N0, Lin.const(0))],
+    I0 = Lin.var(("$entry", "in"))
+    A = poly.Analysis(f, assume=[("==", Lin.var(pout), O0), ("==", Lin.var(plen), N0), (">=", N0, Lin.const(0)), ("==", Lin.var(pin), I0)],
                       unsigned_terms={plen, ("$entry", "len")}).run()
 
     def addr(e):
@@ -304,6 +305,13 @@ def hexify_layout(prog, rep):
             for x in f.all_elems():
                 if x.cls == "ArraySubscriptExpr" and norm(x) == src and x.block.id == e.block.id and x.i < e.i:
                     j = A.lin(x.kid(1), A.state_before(e))
+        if src is not None and src == ("*", pin):
+            # the input walked with the pointer itself: byte j is the one at (in - in at entry)
+            sb = A.state_before(e)
+            for x in f.all_elems():
+                if x.cls == "UnaryOperator" and x.op == "*" and norm(x) == src and x.block.id == e.block.id and x.i < e.i and x.kid(0) is not None:
+                    l = A.lin(x.kid(0), A.state_before(x))
+                    j = (l - I0) if l is not None else None
         if which is None or j is None:
             rep.bad("T2-layout", "hexify: digit store", e.where, "value %s is not the high or low nibble of in[j]" % show(v), function="hexify", construct="store")
             continue
